@@ -7,6 +7,7 @@ import (
 
 	"pgregory.net/rapid"
 
+	"wzverif/internal/gen"
 	"wzverif/internal/kit"
 )
 
@@ -14,10 +15,14 @@ import (
 var (
 	tplNames  = []string{"t0", "t1", "t2", "t3", "t4"}
 	concNames = []string{"m0", "m1", "m2", "m3", "m4"} // loaded / removed only by the concurrent phase
+	roomyName = "d0"                                   // the document template loaded after the drawn part of the history
 )
 
 type gstate struct {
-	loaded map[string]string // name -> kind (text | doc), as the history leaves it
+	loaded  map[string]string // name -> kind (text | doc), as the history leaves it
+	renders int               // render ops so far (each keeps two results)
+	kids    map[string]int    // name -> derived templates loaded below its current version
+	depth   map[string]int    // name -> number of ancestors its current version was bound to (approximately: for the bias only)
 }
 
 func (st *gstate) names() []string {
@@ -131,11 +136,14 @@ func (x *g) nestedVars(r, c int) DocNested {
 	return n
 }
 
-func (x *g) docSpec() *DocSpec {
+// docSpec draws a base document. withPicture: it has a picture placeholder for sure.
+func (x *g) docSpec() *DocSpec { return x.docSpecP(false) }
+
+func (x *g) docSpecP(withPicture bool) *DocSpec {
 	d := &DocSpec{}
 	mapLists := []*schema{topLists[0], topLists[1], topLists[2]} // items, people, rows: lists of maps
 	for i, n := 0, x.intn(1, 5, "delems"); i < n; i++ {
-		switch k := x.uniform(16, "dkind"); { // 5 of 16 kinds are tables
+		switch k := x.uniform(18, "dkind"); { // 5 of 18 kinds are tables
 		case k < 4: // text with variables, possibly one placeholder split over two runs
 			v := x.docVar()
 			if x.chance(25, "splitvar") {
@@ -215,8 +223,23 @@ func (x *g) docSpec() *DocSpec {
 			im := x.pick(imageNames, "dimg")
 			x.usedImgs[im] = true
 			d.Elems = append(d.Elems, DocElem{Runs: []DocRun{{T: "{{#image " + im + "}}"}}})
-		default:
+		case k < 16:
 			d.Elems = append(d.Elems, DocElem{Runs: []DocRun{{T: x.litText()}}, Heading: x.intn(1, 3, "dh")})
+		case k < 17: // heading with a bookmark around it
+			d.Elems = append(d.Elems, DocElem{Runs: []DocRun{{T: x.litText()}}, Heading: x.intn(1, 3, "dh"), Bookmark: "bm_" + strconv.Itoa(len(d.Elems))})
+		default: // formula paragraph
+			d.Elems = append(d.Elems, DocElem{Formula: x.pick([]string{"x+1", "<m:r><m:t>a=b</m:t></m:r>", "E=mc^2", "a<b"}, "dformula"), Block: x.chance(50, "dblock")})
+		}
+	}
+	// a generated table of contents (it lists the headings: there is one at least)
+	if x.chance(15, "dtoc") {
+		d.TOC = 1 + x.uniform(2, "dtock")
+		hasHeading := false
+		for _, e := range d.Elems {
+			hasHeading = hasHeading || (e.Heading > 0 && len(e.Runs) > 0)
+		}
+		if !hasHeading {
+			d.Elems = append(d.Elems, DocElem{Runs: []DocRun{{T: x.litText()}}, Heading: 1})
 		}
 	}
 	hf := func(l string) string {
@@ -234,9 +257,137 @@ func (x *g) docSpec() *DocSpec {
 	if x.chance(35, "dfooter") {
 		d.HasFooter, d.Footer = true, hf("ftr")
 	}
+	if len(d.imagePlaceholders()) == 0 && (withPicture || x.chance(15, "dimgx")) {
+		im := x.pick(imageNames, "dimg")
+		x.usedImgs[im] = true
+		at := x.intn(0, len(d.Elems), "dimgat")
+		d.Elems = append(d.Elems[:at:at], append([]DocElem{{Runs: []DocRun{{T: "{{#image " + im + "}}"}}}}, d.Elems[at:]...)...)
+	}
+	// further header / footer parts, a picture, list items, a note: every one of them is an entry in the
+	// document's relationship / content-type / part tables
+	extra := []DocHF{{Type: "first"}, {Footer: true, Type: "first"}, {Type: "even"}, {Footer: true, Type: "even"}}
+	for i := range extra { // a drawn order
+		j := i + x.uniform(len(extra)-i, "hfperm")
+		extra[i], extra[j] = extra[j], extra[i]
+	}
+	for _, h := range extra[:[]int{0, 0, 0, 1, 1, 2, 2, 3, 4}[x.uniform(9, "nhf")]] {
+		h.Text = hf("hfx")
+		d.HF = append(d.HF, h)
+	}
+	if x.chance(20, "dbaseimg") {
+		d.Image = x.smallImg("dbi")
+	}
+	if x.chance(15, "dlist") {
+		d.ListItems = x.intn(1, 3, "dlistn")
+	}
+	d.Footnote = x.chance(12, "dnote")
 	d.Landscape = x.chance(15, "dland")
+	d.Reopen = []int{0, 0, 0, 0, 0, 0, 1, 2}[x.uniform(8, "dreopen")]
 	d.Saved = x.chance(50, "dsaved")
 	return d
+}
+
+// roomySpec draws a base document with a picture placeholder whose relationship table, by the number of its
+// entries, is likely to have room to spare (tables that grow by appending double: 3, 5, 6, 7 entries leave room).
+func (x *g) roomySpec() *DocSpec {
+	d := x.docSpecP(true)
+	hfs := func(n int) {
+		d.HasHeader, d.HasFooter, d.HF = false, false, nil
+		all := []DocHF{{Type: "default"}, {Footer: true, Type: "default"}, {Type: "first"}, {Footer: true, Type: "first"}, {Type: "even"}, {Footer: true, Type: "even"}}
+		for _, h := range all[:n] {
+			h.Text = x.litText() + "{{" + x.docVar() + "}}"
+			switch {
+			case h.Type == "default" && !h.Footer:
+				d.HasHeader, d.Header = true, h.Text
+			case h.Type == "default":
+				d.HasFooter, d.Footer = true, h.Text
+			default:
+				d.HF = append(d.HF, h)
+			}
+		}
+	}
+	switch x.uniform(5, "roomy") {
+	case 0:
+		hfs(3)
+		d.Image, d.Reopen = nil, 0
+	case 1:
+		hfs(2)
+		d.Image, d.Reopen = x.smallImg("rbi"), 0
+	case 2:
+		hfs(1 + x.uniform(3, "rhf"))
+		d.Reopen = 2 // opened, then extended
+	case 3:
+		hfs(5 + x.uniform(2, "rhf"))
+	}
+	if x.chance(30, "rlist") {
+		d.ListItems = x.intn(1, 3, "rlistn")
+	}
+	if x.chance(30, "rnote") {
+		d.Footnote = true
+	}
+	if d.TOC == 0 && x.chance(25, "rtoc") {
+		d.TOC = 1 + x.uniform(2, "rtock")
+		d.Elems = append(d.Elems, DocElem{Runs: []DocRun{{T: x.litText()}}, Heading: 1})
+	}
+	return d
+}
+
+// editFor: an edit of a document rendered from the given base document that adds to what the base has already.
+func (x *g) editFor(st *gstate, d *DocSpec) Op {
+	op := x.editOp(st)
+	kinds := []string{"image", "header", "footer"}
+	if d.ListItems > 0 {
+		kinds = append(kinds, "list", "numlist")
+	}
+	if d.Footnote {
+		kinds = append(kinds, "footnote", "footnote")
+	}
+	if d.TOC > 0 {
+		kinds = append(kinds, "toc", "toc", "autotoc")
+	}
+	for _, e := range d.Elems {
+		if e.Formula != "" {
+			kinds = append(kinds, "formula")
+		}
+		if e.Bookmark != "" {
+			kinds = append(kinds, "bookmark")
+		}
+	}
+	if x.chance(60, "editfor") {
+		op.Edit.K = x.pick(kinds, "editfork")
+		switch op.Edit.K {
+		case "image":
+			op.Edit.Img = x.smallImg("eim")
+		case "header", "footer":
+			op.Edit.Type = x.pick([]string{"default", "first", "even"}, "edtype")
+		}
+	}
+	return op
+}
+
+func (x *g) smallImg(l string) *gen.Img {
+	return &gen.Img{Fmt: x.pick([]string{"png", "jpeg", "gif"}, l+"f"), W: 1 + x.intn(0, 5, l+"w"), H: 1 + x.intn(0, 5, l+"h"), Pat: x.intn(0, 50, l+"p"),
+		Name: x.pick([]string{"a.png", "b.jpg", "d.gif", "noext", "image0.png"}, l+"n")}
+}
+
+// editOp draws what the caller does next with a document an earlier render returned.
+func (x *g) editOp(st *gstate) Op {
+	e := &EditSpec{K: x.pick([]string{"image", "image", "header", "footer", "para", "list", "numlist", "footnote", "title", "style", "runtext", "celltext",
+		"toc", "autotoc", "formula", "bookmark"}, "editk")}
+	switch e.K {
+	case "image":
+		e.Img = x.smallImg("eim")
+	case "header", "footer":
+		e.Type = x.pick([]string{"default", "first", "even"}, "edtype")
+		e.Text = x.litText()
+	default:
+		e.Text = x.litText()
+	}
+	hi := 2*st.renders - 1
+	if hi < 0 {
+		hi = 0
+	}
+	return Op{K: "edit", Ref: x.intn(0, hi, "editref"), Edit: e}
 }
 
 // ---------------------------------------------------------------------------------------------
@@ -261,12 +412,16 @@ func (x *g) loadedName(st *gstate, l string) string {
 func (x *g) plainLoad(st *gstate) Op {
 	op := Op{K: "load", Name: x.nameFor(st, x.chance(65, "newname")), Src: x.plainSource()}
 	st.loaded[op.Name] = "text"
+	delete(st.kids, op.Name)
+	delete(st.depth, op.Name)
 	return op
 }
 
 func (x *g) docLoad(st *gstate) Op {
 	op := Op{K: "loaddoc", Name: x.nameFor(st, x.chance(65, "newname")), Doc: x.docSpec()}
 	st.loaded[op.Name] = "doc"
+	delete(st.kids, op.Name)
+	delete(st.depth, op.Name)
 	return op
 }
 
@@ -287,7 +442,24 @@ func (x *g) childLoad(st *gstate) Op {
 				txt = append(txt, n)
 			}
 		}
-		if len(txt) > 0 && x.chance(90, "textparent") {
+		// a parent that has a child already gets a second one in a third of the cases (siblings)
+		var withKid []string
+		for _, n := range txt {
+			if st.kids[n] > 0 {
+				withKid = append(withKid, n)
+			}
+		}
+		var derived []string // ... and a derived template gets a child of its own in a fifth (chains)
+		for _, n := range txt {
+			if st.depth[n] >= 1 {
+				derived = append(derived, n)
+			}
+		}
+		if len(withKid) > 0 && x.chance(45, "sibling") {
+			parent = withKid[x.uniform(len(withKid), "parent")]
+		} else if len(derived) > 0 && x.chance(40, "chain") {
+			parent = derived[x.uniform(len(derived), "parent")]
+		} else if len(txt) > 0 && x.chance(90, "textparent") {
 			parent = txt[x.uniform(len(txt), "parent")]
 		} else {
 			parent = ns[x.uniform(len(ns), "parent")]
@@ -295,11 +467,19 @@ func (x *g) childLoad(st *gstate) Op {
 	}
 	op := Op{K: "load", Name: name, Src: x.childSource(parent)}
 	st.loaded[name] = "text"
+	delete(st.kids, name) // a new version: nothing is bound below it yet
+	st.kids[parent]++
+	if _, ok := st.loaded[parent]; ok && parent != name {
+		st.depth[name] = st.depth[parent] + 1
+	} else {
+		delete(st.depth, name)
+	}
 	return op
 }
 
 func (x *g) renderOp(st *gstate) Op {
 	op := Op{K: "render", Entry: x.uniform(2, "entry"), Data: x.intn(0, 2, "dataidx")}
+	st.renders++
 	if len(st.loaded) > 0 && x.chance(92, "rloaded") {
 		op.Name = x.loadedName(st, "rname")
 	} else {
@@ -342,9 +522,11 @@ func (x *g) op(st *gstate) Op {
 			op.Name = tplNames[x.uniform(len(tplNames), "rmname")]
 		}
 		delete(st.loaded, op.Name)
+		delete(st.kids, op.Name)
+		delete(st.depth, op.Name)
 		return op
 	default:
-		st.loaded = map[string]string{}
+		st.loaded, st.kids, st.depth = map[string]string{}, map[string]int{}, map[string]int{}
 		return Op{K: "clear"}
 	}
 }
@@ -459,26 +641,70 @@ func minInt(a, b int) int {
 func genCase(t *rapid.T) Case {
 	x := newG(t)
 	race := kit.RaceMode()
-	st := &gstate{loaded: map[string]string{}}
+	st := &gstate{loaded: map[string]string{}, kids: map[string]int{}, depth: map[string]int{}}
 	var c Case
 	maxOps := kit.Scale(11, 16)
 	if race {
 		maxOps = 6
 	}
 	for i, n := 0, x.intn(2, maxOps, "nops"); i < n; i++ {
-		c.Ops = append(c.Ops, x.op(st))
+		op := x.op(st)
+		c.Ops = append(c.Ops, op)
+		if op.K == "render" && x.chance(10, "edit") { // the caller goes on working with a document it was given
+			c.Ops = append(c.Ops, x.editOp(st))
+		}
+	}
+	// a document template with pictures, rendered several times in a row with different data (the results of
+	// the earlier renders stay with the caller, who may go on working with the later ones)
+	minDatas := 1
+	if x.chance(kit.Scale(30, 25), "roomy") {
+		name := roomyName
+		spec := x.roomySpec()
+		c.Ops = append(c.Ops, Op{K: "loaddoc", Name: name, Doc: spec})
+		st.loaded[name] = "doc"
+		if !race {
+			d0 := x.intn(0, 2, "rdata")
+			for i, n := 0, x.intn(2, 3, "rrenders"); i < n; i++ {
+				c.Ops = append(c.Ops, Op{K: "render", Name: name, Entry: x.uniform(2, "rentry"), Data: d0 + i})
+				st.renders++
+				if x.chance(30, "redit") {
+					c.Ops = append(c.Ops, x.editFor(st, spec))
+				}
+			}
+			minDatas = 2
+		}
 	}
 	// closing renders: what does every loaded name produce after all that happened?
 	for _, n := range st.names() {
-		if !race && x.chance(75, "closing") {
-			c.Ops = append(c.Ops, Op{K: "render", Name: n, Entry: x.uniform(2, "centry"), Data: x.intn(0, 2, "cdata")})
+		pc := 75
+		if st.depth[n] >= 1 { // derived templates: what they render depends on the most
+			pc = 92
+		}
+		if !race && x.chance(pc, "closing") {
+			op := Op{K: "render", Name: n, Entry: x.uniform(2, "centry"), Data: x.intn(0, 2, "cdata")}
+			c.Ops = append(c.Ops, op)
+			st.renders++
+			if st.loaded[n] == "doc" && x.chance(35, "closing2") { // once more, with other data
+				op.Data++
+				op.Entry = x.uniform(2, "centry2")
+				c.Ops = append(c.Ops, op)
+				st.renders++
+				minDatas = 2
+			}
+			if x.chance(12, "cedit") {
+				c.Ops = append(c.Ops, x.editOp(st))
+			}
 		}
 	}
 	var conc *Conc
 	if race || x.chance(40, "conc") {
 		conc = x.conc(st)
 	}
-	for i, n := 0, x.intn(1, 3, "ndatas"); i < n; i++ {
+	nd := x.intn(1, 3, "ndatas")
+	if nd < minDatas {
+		nd = minDatas
+	}
+	for i := 0; i < nd; i++ {
 		c.Datas = append(c.Datas, x.data())
 	}
 	c.Conc = conc
@@ -508,6 +734,10 @@ func describe(res *kit.Result, c *Case, x *runner, ranConc bool) {
 			}
 		case "render":
 			sk.WriteString(strconv.Itoa(op.Entry&1) + strconv.Itoa(op.Data))
+		case "edit":
+			if op.Edit != nil {
+				sk.WriteString(op.Edit.K + strconv.Itoa(op.Ref))
+			}
 		}
 		sk.WriteString(";")
 	}
@@ -536,9 +766,19 @@ func describe(res *kit.Result, c *Case, x *runner, ranConc bool) {
 		res.Label("op:" + k)
 	}
 	docTable, docNested, docNested2, docNestedLoop := false, false, false, false
+	docHF3, docBaseImg, docReopened, docNumNotes, docPicture, docTOC, docOther := false, false, false, false, false, false, false
 	seeDoc := func(d *DocSpec) {
 		if d == nil {
 			return
+		}
+		docHF3 = docHF3 || d.hfParts() >= 3
+		docBaseImg = docBaseImg || d.Image != nil
+		docReopened = docReopened || d.Reopen > 0
+		docNumNotes = docNumNotes || d.ListItems > 0 || d.Footnote
+		docPicture = docPicture || len(d.imagePlaceholders()) > 0
+		docTOC = docTOC || d.TOC > 0
+		for _, e := range d.Elems {
+			docOther = docOther || e.Formula != "" || e.Bookmark != ""
 		}
 		for _, e := range d.Elems {
 			if e.Table != nil {
@@ -564,6 +804,21 @@ func describe(res *kit.Result, c *Case, x *runner, ranConc bool) {
 	lab(docNested, "doc:nested-table")
 	lab(docNested2, "doc:nested-table-depth2")
 	lab(docNestedLoop, "doc:nested-loop-table")
+	lab(docHF3, "doc:header/footer-parts>=3")
+	lab(docBaseImg, "doc:own-picture")
+	lab(docReopened, "doc:saved-and-opened")
+	lab(docNumNotes, "doc:list-or-footnote")
+	lab(docPicture, "doc:picture-placeholder")
+	lab(docTOC, "doc:table-of-contents")
+	lab(docOther, "doc:bookmark-or-formula")
+	lab(x.sawSpareRels, "render:base-relationship-table-has-spare-capacity")
+	lab(x.sawSpareCT, "render:base-content-type-table-has-spare-capacity")
+	lab(x.sawImgFmtChange, "render:doc-template-again-with-other-picture-format")
+	lab(x.sawImgFmtChange && x.sawSpareRels, "render:other-picture-format+spare-capacity")
+	lab(x.edits > 0, "edit:applied")
+	lab(len(x.kept) >= 4, "kept:results>=4")
+	res.Count("kept-results", len(x.kept))
+	res.Count("kept-rechecks", x.rechecks)
 	lab(x.boundLoads > 0, "load:extends-bound")
 	lab(x.sawUnbound, "load:extends-absent-parent")
 	lab(x.sawDocExt, "load:extends-doc-template")
